@@ -130,6 +130,8 @@ Conf(ev) ==
          [] ev.cf = "hash"  -> ConfHash(ev)
          [] ev.cf = "cap"   -> ConfCap(ev)
          [] ev.cf = "sig"   -> ConfSig(ev)
+         [] ev.cf = "setup" -> <<>>     \* a step that only produces the next state of a history: not judged
+                                         \* by this check (the model re-synchronises on what was observed)
 
 \* the model's idea of the pre-state must be the observed pre-state
 Chain(ev) ==
@@ -137,7 +139,7 @@ Chain(ev) ==
   ELSE Complain(regs[ev.r].b = ev.x.b, "pre-state-differs-from-model")
 
 Expected(ev) == IF ev.op \in ItOps THEN ApiIt(ev, iter)
-                ELSE IF ev.cf \in {"forms", "hash", "twin"} THEN [pb |-> ev.px.b, o |-> ev.o]
+                ELSE IF ev.cf \in {"forms", "hash", "twin", "setup"} THEN [pb |-> ev.px.b, o |-> ev.o]
                 ELSE Api(ev)
 
 (***************************************************************************)
